@@ -118,7 +118,52 @@ def c20_plan(run, replay=None):
         exhaustive=True)
 
 
+# -------------------------------------------------------------------------------------------- realtime
+def realtime_plan(prop, pools, floors):
+    """pools: list of (cfg_quick, cfg_thorough, zones, maxperm); all go through driver `realtime` and RealtimeObs."""
+    def plan(run, replay=None):
+        q = run.tier == "quick"
+        run.build_harness()
+        total = 0
+        if replay:
+            replay_cases(run, replay, "cases0.ndjson")
+            jobs = [("cases0.ndjson", "nil,UTC,America/New_York,fixed+0545", 4)]
+        else:
+            jobs = []
+            for n, (cq, ct, zones, maxperm) in enumerate(pools):
+                f = "cases%d.ndjson" % n
+                cfg = cq if q else ct
+                if isinstance(cfg, tuple):   # (cfg, simulate count)
+                    run.tlc("RealtimeMC", cfg[0], "design", workers=1, simulate=cfg[1], depth=12, seed=run.seed, cases_out=f)
+                else:
+                    run.tlc("RealtimeMC", cfg, "design", workers=8, cases_out=f, timeout=2400)
+                jobs.append((f, zones, maxperm))
+        for n, (f, zones, maxperm) in enumerate(jobs):
+            out = "obs%d.ndjson" % n
+            s = run.harness("realtime", ["-in", f, "-out", out, "-zones", zones, "-maxperm", maxperm], timeout=3000)
+            run.load_inputs(out + ".inputs")
+            run.validate_trace("RealtimeObs", out, s["cases"], timeout=3000)
+            total += s["cases"]
+        only(run, [prop + "."])
+        run.crashes = [c for c in run.crashes]
+        if not replay:
+            for name, minimum in floors.items():
+                run.floor(name, run.counters.get(name, 0), minimum if q else minimum)
+        run.counters["distinct_nontrivial"] = run.counters.get("distinct_messages", 0)
+        return run.finish(
+            "abstract GTFS-realtime messages (tokens for every string/number, explicit presence of every optional "
+            "field) enumerated by TLC from the pools of the configs; each is rendered as protobuf, parsed by the real "
+            "ParseRealtime in every entity order (<= maxperm entities) and in each zone; distinct by JSON",
+            ["token pools for strings/numbers/dates are fixed in harness/internal/rt/pools.go (numeric extremes included)",
+             "the protobuf rendering uses the repository's generated proto package and google.golang.org/protobuf",
+             "TLC, Json module"], exhaustive=True)
+    return plan
+
+
 PLANS = {
+    "C04": realtime_plan("C04", [("RT_merge_quick.cfg", "RT_merge_thorough.cfg", "nil", 4)], {"messages_with_2plus_entities": 400}),
+    "C07": realtime_plan("C07", [("RT_merge_quick.cfg", "RT_merge_thorough.cfg", "nil", 4)], {"messages_with_2plus_entities": 400}),
+    "C12": realtime_plan("C12", [("RT_alerts_quick.cfg", "RT_alerts_thorough.cfg", "nil", 1)], {"distinct_messages": 400}),
     "C20": c20_plan,
     "C19": c19_plan,
     "C14": journal_plan("C14"),
